@@ -2,6 +2,7 @@
 # development: run every unit, text output, in parallel
 export GOFLAGS=-mod=mod GOPROXY=off GOSUMDB=off GOTOOLCHAIN=local
 mkdir -p /verif/out/dev
+find /verif/out/dev -type f -delete
 /verif/bin/govc units | awk '{print $1}' > /verif/out/dev/units.txt
 find ${VERIF_REPO:-/repo} -name contracts_verif.go | while read f; do
   grep -o '^//@ unit [a-z_0-9]*' $f | awk '{print $3}' | while read u; do echo "$f $u"; done
